@@ -6,7 +6,7 @@ Import ListNotations.
 Section TarFS.
   Variable clean : nat -> nat.
   Notation index_entries := (index_entries clean).
-  Notation tar_open := (tar_open clean).
+  Notation tar_open := (tar_open clean true).
 
   Lemma tlookup_tset p q e m :
     tlookup p (tset q e m) = if Nat.eqb p q then Some e else tlookup p m.
@@ -75,7 +75,7 @@ Section TarFS.
     intros [A B] p. split.
     - intros H. unfold TarFS.tar_open, dir_open. destruct (dlookup p d) as [c|] eqn:L.
       + destruct (A p c L) as (pre & e & post & -> & E & K & Dt & Hp).
-        rewrite (last_wins pre e post p E Hp), K, Dt. reflexivity.
+        rewrite (last_wins pre e post p E Hp), Dt. destruct (te_kind e); try discriminate; reflexivity.
       + destruct H as [H|H]; [congruence|].
         change (index_entries tar) with (fold_idx tar []). rewrite fold_none by exact H. reflexivity.
     - intros L (e & I & E). unfold TarFS.tar_open.
@@ -91,16 +91,30 @@ End TarFS.
    a stale earlier copy of file 1 *)
 Example tar_view_example :
   let clean := fun r => Nat.div2 r in
-  let tar := [mkTE 2 TReg 70; mkTE 6 TOther 0; mkTE 3 TReg 71; mkTE 4 TReg 72] in
+  let tar := [mkTE 2 TReg 70; mkTE 6 TOther 0; mkTE 3 TReg 71; mkTE 4 TSparse 72] in
   let d := [(1, 71); (2, 72)] in
-  archives clean tar d /\ tar_open clean tar 1 = FData 71 /\ tar_open clean tar 3 = FUnsupported /\
-  tar_open clean tar 5 = FNotExist.
+  archives clean tar d /\ tar_open clean true tar 1 = FData 71 /\ tar_open clean true tar 3 = FUnsupported /\
+  tar_open clean true tar 5 = FNotExist /\ tar_open clean false tar 2 = FBroken /\ tar_open clean true tar 2 = FData 72.
 Proof.
-  split; [|vm_compute; auto]. split.
+  split; [|vm_compute; repeat split]. split.
   - intros p c H. simpl in H. destruct p as [|[|[|p]]]; try discriminate.
-    + injection H as <-. exists [mkTE 2 TReg 70; mkTE 6 TOther 0], (mkTE 3 TReg 71), [mkTE 4 TReg 72].
+    + injection H as <-. exists [mkTE 2 TReg 70; mkTE 6 TOther 0], (mkTE 3 TReg 71), [mkTE 4 TSparse 72].
       repeat split. intros e' [<-|[]]. simpl. discriminate.
-    + injection H as <-. exists [mkTE 2 TReg 70; mkTE 6 TOther 0; mkTE 3 TReg 71], (mkTE 4 TReg 72), [].
+    + injection H as <-. exists [mkTE 2 TReg 70; mkTE 6 TOther 0; mkTE 3 TReg 71], (mkTE 4 TSparse 72), [].
       repeat split. intros e' [].
   - intros e [<-|[<-|[<-|[<-|[]]]]]; simpl; intro H; try discriminate; reflexivity.
+Qed.
+
+(* the code as found: a file stored as a sparse member (GNU tar -S, bsdtar) does not open to
+   its content although the archive holds the directory *)
+Lemma tar_view_refuted_sparse :
+  exists (clean : nat -> nat) (tar : list tentry) (d : dirfs) (p : nat),
+    archives clean tar d /\ dlookup p d <> None /\
+    tar_open clean false tar p <> dir_open d p /\ tar_open clean true tar p = dir_open d p.
+Proof.
+  exists (fun r => r), [mkTE 1 TSparse 7], [(1, 7)], 1. split; [split|].
+  - intros p c H. simpl in H. destruct p as [|[|p]]; try discriminate. injection H as <-.
+    exists [], (mkTE 1 TSparse 7), []. repeat split. intros e' [].
+  - intros e [<-|[]]. simpl. discriminate.
+  - vm_compute. repeat split; discriminate.
 Qed.
